@@ -40,6 +40,43 @@ def apply_variant(v, dst):
     return None
 
 
+RENAMES = {
+    "spake2.py": [("compute_outbound_message", "_compute_out"), ("_extract_message", "_strip_side"), ("self.xy_scalar", "self._secret"),
+                  ("self.xy_elem", "self._secret_elem"), (".outbound_message", "._out_msg"), (".inbound_message", "._in_msg"),
+                  ("_started", "_begun"), ("_finished", "_done"), ("pw_scalar", "_w"), ("my_blinding", "_blind"), ("my_unblinding", "_unblind"),
+                  ("_serialize_to_dict", "_to_d"), ("_deserialize_from_dict", "_from_d"), ("hash_params", "_fingerprint")],
+    "ed25519_basic.py": [("decodepoint", "_decode_pt"), ("encodepoint", "_encode_pt"), ("is_extended_zero", "_is_identity"),
+                         ("scalarmult_element_safe_slow", "_mul_safe"), ("_add_elements_nonunfied", "_add_fast"), ("scalarmult_element", "_mul_fast"),
+                         ("add_elements", "_add_complete"), ("double_element", "_dbl"), ("xrecover", "_sqrt_ratio"), ("isoncurve", "_on_curve"),
+                         ("xform_affine_to_extended", "_to_ext"), ("xform_extended_to_affine", "_to_aff"),
+                         ("bytes_to_unknown_group_element", "_decode_any"), ("XYTZ", "_coords"), ("expand_arbitrary_element_seed", "_kdf_seed")],
+    "groups.py": [("_is_member", "_in_subgroup"), ("_element_to_bytes", "_enc_elem"), ("expand_password", "_kdf_pw"),
+                  ("expand_arbitrary_element_seed", "_kdf_seed"), ("._e ", "._residue "), ("._e)", "._residue)"), ("._e,", "._residue,"), ("._e\n", "._residue\n")],
+    "util.py": [("generate_mask", "_mask_for"), ("random_list_of_ints", "_draw"), ("mask_list_of_ints", "_apply_mask"), ("list_of_ints_to_number", "_to_int")],
+}
+
+
+def whole_tree_variant(kind, dst):
+    """Behaviour-preserving transformations of the whole package: 'reformat' = every file
+    through ast.unparse (comments dropped, lines moved); 'rename' = private helpers, fields and
+    internal function names renamed consistently."""
+    import ast
+    pk = _copy_tree(dst)
+    for dp, dn, fn in os.walk(pk):
+        for f in fn:
+            if not f.endswith(".py") or f == "_version.py":
+                continue
+            p = os.path.join(dp, f)
+            src = open(p).read()
+            if kind == "reformat":
+                src = ast.unparse(ast.parse(src)) + "\n"
+            else:
+                for old, new in RENAMES.get(f, []):
+                    src = src.replace(old, new)
+            compile(src, p, "exec")
+            open(p, "w").write(src)
+
+
 def run_check_on(pid, root):
     env = dict(os.environ)
     env["VERIF_REPO"] = root
@@ -85,6 +122,17 @@ def sensitivity(pid, ctx=None, jobs=16, verbose=False):
         results = list(ex.map(lambda v: run_variant(v, [pid]), vs))
     bad, applied_breaks, applied_neutral, skipped = [], 0, 0, 0
     rows = []
+    for kind in ("reformat", "rename"):
+        tmp = tempfile.mkdtemp(prefix="sa-selftest-")
+        try:
+            whole_tree_variant(kind, tmp)
+            rc, out = run_check_on(pid, tmp)
+        finally:
+            shutil.rmtree(tmp, ignore_errors=True)
+        applied_neutral += 1
+        rows.append({"id": "whole-tree-" + kind, "kind": "neutral", "rc": rc})
+        if rc != 0:
+            bad.append("neutral whole-tree %s raised an alarm (rc=%d): %s" % (kind, rc, " | ".join(out.strip().splitlines()[-3:])))
     for v, r in zip(vs, results):
         if "skipped" in r:
             skipped += 1
